@@ -261,4 +261,23 @@ Proof.
     + discriminate.
 Qed.
 
+(* ---------- the evaluation route, and the three styles agree ---------- *)
+Lemma eval_of_lex : forall s n v, lex cfg s = ([mkTok K_QSTR 0 n v], EndOk) -> eval_literal cfg s = Some v.
+Proof. intros s n v H. unfold eval_literal, literal_obs. rewrite H. reflexivity. Qed.
+
+Theorem quoted_styles_agree : quote_ok cfg 39 = true -> quote_ok cfg 34 = true -> forall s,
+  eval_literal cfg (spell_sq s) = Some (VText s) /\ eval_literal cfg (spell_dq s) = Some (VText s).
+Proof.
+  intros Q1 Q2 s. split; [exact (eval_of_lex _ _ _ (sq_roundtrip Q1 s))|exact (eval_of_lex _ _ _ (dq_roundtrip Q2 s))].
+Qed.
+
+Theorem styles_agree : quote_ok cfg 39 = true -> quote_ok cfg 34 = true -> quote_ok cfg 96 = true ->
+  forall s, vb_ok s = true ->
+  eval_literal cfg (spell_sq s) = Some (VText s) /\ eval_literal cfg (spell_dq s) = Some (VText s) /\
+  eval_literal cfg (spell_verbatim s) = Some (VText s).
+Proof.
+  intros Q1 Q2 Q3 s G. destruct (quoted_styles_agree Q1 Q2 s) as [A B].
+  split; [exact A|]. split; [exact B|]. exact (eval_of_lex _ _ _ (verbatim_roundtrip Q3 s G)).
+Qed.
+
 End RT.
